@@ -369,6 +369,8 @@ type VerifAuditOut struct {
 	// WithCollector was requested; Csv the files it wrote.
 	CollectorErr string
 	Csv          map[string]string
+	// Detected[i] is the number of sigEvents the i-th line produced.
+	Detected []int
 	// Tallies maps each audience member to (good count, bad count) as
 	// held by the collector at the end; NumAuditErrors = len(errors).
 	Tallies        map[string][2]int
@@ -383,10 +385,22 @@ type VerifAuditArgs struct {
 	Events []VerifEvent
 	// EpochOffset: the fake epoch is now - EpochOffset seconds.
 	EpochOffset float64
+	// EpochUnix, if non-zero, pins the fake epoch to that Unix time instead.
+	EpochUnix int64
+	// Lines, if non-empty, are spotlight output lines: each is run
+	// through the real detectSignals of its actor (in order, after
+	// Events) and what it emits is fed to the audit loop.
+	Lines []VerifSpotLine
 	// WithCollector also runs the real collector on the stream, writing
 	// CSV files into a scratch directory that is read back and removed.
 	WithCollector bool
 	EarlyExit     bool
+}
+
+// VerifSpotLine is one line printed by an actor's spotlight.
+type VerifSpotLine struct {
+	Actor string
+	Line  string
 }
 
 type verifRecorder struct {
@@ -455,6 +469,9 @@ func VerifRunAudition(a VerifAuditArgs) (res VerifAuditOut) {
 	cfg.earlyExit = a.EarlyExit
 	rec := &verifRecorder{}
 	base := &verifReporter{ep: time.Now().Add(-time.Duration(a.EpochOffset * float64(time.Second)))}
+	if a.EpochUnix != 0 {
+		base.ep = time.Unix(a.EpochUnix, 0)
+	}
 	// Nobody receives from collCh while the audit loop runs: its length
 	// is the number of events sent so far, which orders the judge
 	// messages relative to the collector events.
@@ -464,7 +481,7 @@ func VerifRunAudition(a VerifAuditArgs) (res VerifAuditOut) {
 	stopper := stop.NewStopper()
 	defer stopper.Stop(ctx)
 
-	eventCh := make(chan auditableEvent, len(a.Events)+1)
+	eventCh := make(chan auditableEvent, len(a.Events)+4*len(a.Lines)+1)
 	auRes := &auditionResults{}
 	au := audition{
 		r:       rep,
@@ -489,6 +506,25 @@ func VerifRunAudition(a VerifAuditArgs) (res VerifAuditOut) {
 					typ: sigType(v.Typ), varName: varName{actorName: v.Actor, sigName: v.Sig}, val: v.Val})
 			}
 			eventCh <- se
+		}
+	}
+	if len(a.Lines) > 0 {
+		spm := spotMgr{
+			r:       base,
+			cfg:     cfg,
+			stopper: stopper,
+			logger:  log.NewSecondaryLogger(ctx, nil, "spotlight", true, false),
+			auditCh: eventCh,
+		}
+		for _, l := range a.Lines {
+			act, ok := cfg.actors[l.Actor]
+			if !ok {
+				res.Err = "verif: no such actor " + l.Actor
+				return res
+			}
+			before := len(eventCh)
+			spm.detectSignals(ctx, act, strings.TrimSpace(l.Line))
+			res.Detected = append(res.Detected, len(eventCh)-before)
 		}
 	}
 	eventCh <- terminate{}
